@@ -5,3 +5,4 @@ import Proofs.Mask
 import Proofs.Modes
 import Proofs.Roundtrip
 import Proofs.Sizing
+import Proofs.Lines
